@@ -186,26 +186,87 @@ def is_cmp(t):
 
 
 def strip_plus(t):
+    """look through what leaves no trace in RQ: unary plus; a call of `f_o x y` is `x o y`"""
     while t[0] == "un" and t[1] == "Add":
         t = t[2]
+    if t[0] == "call2":
+        t = ("bin", t[1], t[2], t[3])
+    if t[0] == "in" and (t[2][0] == "null") != (t[3][0] == "null"):      # one open bound: a plain comparison
+        t = ("bin", "Lte", t[1], t[3]) if t[2][0] == "null" else ("bin", "Gte", t[1], t[2])
     return t
+
+
+def loose_for_between(t):
+    """operand whose top operator SQLite puts at or below BETWEEN"""
+    t = strip_plus(t)
+    if t[0] == "bin":
+        return t[1] in G.CMP + ["And", "Or", "RegexSearch"]
+    if t[0] == "un":
+        return t[1] == "Not" or loose_for_between(t[2]) and False
+    if t[0] == "in":
+        return t[2][0] != "null" and t[3][0] != "null"
+    return False
+
+
+def cmp_op(t):
+    """the comparison operator on top of t after expansion, or None (`x | in lo..` is `x >= lo`)"""
+    t = strip_plus(t)
+    if t[0] == "bin" and t[1] in G.CMP:
+        return t[1]
+    if t[0] == "in" and (t[2][0] == "null") != (t[3][0] == "null"):
+        return "Lte" if t[2][0] == "null" else "Gte"
+    return None
+
+
+def strip_un(t):
+    t = strip_plus(t)
+    while t[0] == "un":
+        t = strip_plus(t[2])
+    return t
+
+
+def is_between(t):
+    return t[0] == "in" and t[2][0] != "null" and t[3][0] != "null"
+
+
+def syntactic_defects(t):
+    """known parenthesisation defects at any node of t (pure syntax; the value decides nothing here)"""
+    out = []
+    for n in G.nodes(t):
+        n = strip_plus(n)
+        kids = [strip_plus(c) for c in G.children(n)]
+        if is_between(n) and any(loose_for_between(x) for x in n[1:4]):
+            out.append("between-inner-operand-not-parenthesised")
+        if not is_between(n) and n[0] in ("bin", "un", "fn1", "in") and any(is_between(strip_un(c)) for c in kids) and n[0] != "fn1":
+            out.append("between-operand-not-parenthesised")
+        if n[0] == "bin":
+            op, l, rr = n[1], kids[0], kids[1]
+            if op in G.CMP:
+                for side, ch in (("L", l), ("R", rr)):
+                    co = cmp_op(ch)
+                    if co:
+                        p, c = SQLITE_PREC[op], SQLITE_PREC[co]
+                        if (side == "L" and not p <= c) or (side == "R" and not p < c):
+                            out.append("comparison-chain-not-parenthesised")
+            if op == "Mul" and rr[0] == "bin" and rr[1] == "Mod":
+                out.append("mul-right-operand-mod-not-parenthesised")
+            for ch in (l, rr):
+                if ch[0] == "bin" and ch[1] == "DivInt" and op in ("Mod", "DivFloat", "DivInt"):
+                    out.append("div_i-template-product-not-parenthesised")
+    return out
 
 
 def classify(ev, m, d, bad):
     """known-finding id for the MINIMAL failing tree m (its children pass on their own), or None"""
     r = ev.res[(m, d)]
+    m0 = m
     m = strip_plus(m)
     k = m[0]
     i = bad[0][0]
     rq = (r["model"] or {}).get("rq", "")
-    # 1. `-(-x)` prints `--x`
     if r["sql"] is not None and "--" in r["sql"]:
         return "double-minus-is-a-comment"
-    # 2. a BETWEEN (from `in lo..hi`) used as an operand: its strength is that of an atom
-    if k != "in" and r["sql"] is not None and any(strip_plus(c)[0] == "in" and strip_plus(c)[2][0] != "null" and strip_plus(c)[3][0] != "null"
-                                                  for c in G.children(m)):
-        return "between-operand-not-parenthesised"
-    if k in ("bin", "call2"):
+    if k == "bin":
         op, l, rr = m[1], strip_plus(m[2]), strip_plus(m[3])
         vl = doc_at(ev, l, d, i) if isinstance(i, int) else None
         vr = doc_at(ev, rr, d, i) if isinstance(i, int) else None
@@ -215,24 +276,13 @@ def classify(ev, m, d, bad):
             return "sqlite-div_i-small-quotient"
         if op == "DivFloat" and d == "generic" and integral(vl) and integral(vr) and vr != 0 and vl % vr != 0:
             return "generic-div_f-integer-division"
-        if k == "bin" and op in ("Eq", "Ne") and m[2][0] != "null" and m[3][0] != "null" \
+        if op in ("Eq", "Ne") and m[2][0] != "null" and m[3][0] != "null" \
                 and (re.match(r"\(op std\.(eq|ne) \(null\) ", rq) or re.search(r" \(null\)\)$", rq)):
             return "null-literal-created-by-folding"
-        if k == "bin" and op in G.CMP:
-            for side, ch in (("L", l), ("R", rr)):
-                if is_cmp(ch):
-                    p, c = SQLITE_PREC[op], SQLITE_PREC[ch[1]]
-                    if (side == "L" and not p <= c) or (side == "R" and not p < c):
-                        return "comparison-chain-not-parenthesised"
-        if k == "bin" and op == "Mul" and rr[0] == "bin" and rr[1] == "Mod":
-            return "mul-right-operand-mod-not-parenthesised"
-        if k == "bin" and op == "Mul" and d == "generic" and rr[0] == "bin" and rr[1] == "DivFloat":
+        if op == "Mul" and d == "generic" and rr[0] == "bin" and rr[1] == "DivFloat":
             return "generic-div_f-integer-division"
-        # a `//` operand: its template is a product annotated with strength 100
-        for ch in (l, rr):
-            if ch[0] in ("bin", "call2") and ch[1] == "DivInt" and op in ("Mod", "DivFloat", "DivInt", "Pow"):
-                return "div_i-template-product-not-parenthesised"
-    return None
+    syn = syntactic_defects(m0)
+    return syn[0] if syn else None
 
 
 def run(ctx):
